@@ -54,7 +54,7 @@ func randomTreeCases(c *engine.Ctx, stream string, n int, o sgen.Opts, build fun
 func init() {
 	// ------------------------------------------------------------------ C04
 	register("C04", func(c *engine.Ctx) {
-		c.Rule = "systematic: one object with 1..3 required keys at root / nested / array element / definition position, every non-empty subset of the required keys removed, plus present-null for nullable and absent optional; systematic over the KIND of the required property (28 kinds: scalars, bounded, nullable, arrays, structs, maps by value type, bare object, enums, formats, any, allOf, anyOf; inline and through a definition) at each of those positions, present / missing; random: structured schemas of the tree fragment (objects, arrays, primitives, enums, nullable, $defs/$ref, depth <= 3), a fully populated valid document, and every single deletion of a required key at every object position. Verdict must equal the reference. Distinct = distinct (stream, verdicts, document shape)."
+		c.Rule = "systematic: one object with 1..3 required keys at root / nested / array element / definition position, every non-empty subset of the required keys removed, plus present-null for nullable and absent optional; systematic over the KIND of the required property (28 kinds: scalars, bounded, nullable, arrays, structs, maps by value type, bare object, enums, formats, any, allOf, anyOf; inline and through a definition) at each of those positions, present / missing; definitions with overlapping required lists shared by several allOf compositions, every single deletion at every composed position; random: structured schemas of the tree fragment (objects, arrays, primitives, enums, nullable, $defs/$ref, depth <= 3), a fully populated valid document, and every single deletion of a required key at every object position. Verdict must equal the reference. Distinct = distinct (stream, verdicts, document shape)."
 		c.Proofs([]string{"GJS.Props.C04"}, []string{
 			"GJS.Proofs.fails_not_accepted", "GJS.Props.C04.rejects_missing", "GJS.Props.C04.cert_missing_le", "GJS.Props.C04.cert_rejects_missing",
 		})
@@ -151,6 +151,8 @@ func init() {
 				}
 			}
 		}
+		// required keys of definitions that several allOf compositions share (every single deletion)
+		pcs = append(pcs, sharedDefinitionCases(c, "c04-shared-definitions")...)
 		// random
 		pcs = append(pcs, randomTreeCases(c, "c04-random", c.N(250, 4000), treeOpts(), func(g *sgen.G, root sgen.M, base any) []any {
 			var docs []any
@@ -186,12 +188,41 @@ func init() {
 
 	// ------------------------------------------------------------------ C03
 	register("C03", func(c *engine.Ctx) {
-		c.Rule = "random structured schemas of the tree fragment; a fully populated valid document; at every typed position (single type or [T,null], reached through properties, array items and $ref) the value is replaced by a value of every other JSON type (string, integer, non-integral number, boolean, array, object) and, where null is allowed, by null. Verdict must equal the reference. Distinct = distinct (position type, substituted type, verdicts)."
+		c.Rule = "random structured schemas of the tree fragment; a fully populated valid document; at every typed position (single type or [T,null], reached through properties, array items and $ref) the value is replaced by a value of every other JSON type (string, integer, non-integral number, boolean, array, object) and, where null is allowed, by null; plus typed positions built by composition (allOf / anyOf over object branches typed object, [object,null] or [null,object], inline or by $ref) with wrong-typed values for the whole position and for a member. Verdict must equal the reference. Distinct = distinct (position type, substituted type, verdicts)."
 		c.Proofs([]string{"GJS.Props.C03"}, []string{
 			"GJS.Proofs.fails_not_accepted", "GJS.Props.C03.top_mismatch", "GJS.Props.C03.cert_wrong_type_le",
 			"GJS.Props.C03.cert_rejects_wrong_type", "GJS.Props.C03.null_into_pointer", "GJS.Props.C03.fraction_into_int_fails",
 		})
 		subst := map[string]any{"string": "s", "integer": 7, "number": 1.5, "boolean": true, "array": []any{}, "object": M{}}
+		// typed positions built by composition: allOf / anyOf over object branches, plain or nullable in either
+		// spelling of the type list, inline or by $ref; wrong-typed values for the whole position and for a member
+		var composed []*core.PCase
+		for _, kw := range []string{"allOf", "anyOf"} {
+			for _, ty := range []any{"object", []any{"object", "null"}, []any{"null", "object"}} {
+				for _, viaRef := range []bool{false, true} {
+					b0 := M{"type": ty, "properties": M{"port": M{"type": "integer"}}, "required": []any{"port"}}
+					b1 := M{"properties": M{"tls": M{"type": "boolean"}}}
+					if kw == "anyOf" {
+						b1 = M{"type": ty, "properties": M{"url": M{"type": "string"}}, "required": []any{"url"}}
+					}
+					schema := M{"type": "object"}
+					var first any = b0
+					if viaRef {
+						schema["$defs"] = M{"Endpoint": b0}
+						first = M{"$ref": "#/$defs/Endpoint"}
+					}
+					schema["properties"] = M{"up": M{kw: []any{first, b1}}}
+					docs := []any{M{"up": M{"port": 80}}, M{"up": M{"port": "eighty"}}, M{"up": M{"port": 80.5}}, M{"up": M{"port": true}}, M{"up": M{"port": []any{}}},
+						M{"up": 42}, M{"up": "s"}, M{"up": []any{1}}, M{"up": true}}
+					if kw == "allOf" {
+						docs = append(docs, M{"up": M{"port": 80, "tls": "yes"}}, M{"up": M{"port": 80, "tls": true}})
+					} else {
+						docs = append(docs, M{"up": M{"url": 7}}, M{"up": M{"url": "u"}})
+					}
+					composed = append(composed, baseCase("c03-composed", schema, docs, kw, fmt.Sprint(ty), fmt.Sprintf("ref=%v", viaRef)))
+				}
+			}
+		}
 		pcs := randomTreeCases(c, "c03-random", c.N(250, 4000), treeOpts(), func(g *sgen.G, root sgen.M, base any) []any {
 			var docs []any
 			for _, p := range g.Positions(root, base) {
@@ -233,6 +264,7 @@ func init() {
 			}
 			return docs
 		})
+		pcs = append(pcs, composed...)
 		res := runCases(c, pcs)
 		fails := verdictOracle(c, res, "wrong JSON type", nil)
 		certCount(c, res, "type")
@@ -319,7 +351,7 @@ func init() {
 
 	// ------------------------------------------------------------------ C09
 	register("C09", func(c *engine.Ctx) {
-		c.Rule = "one optional property with a default per program: scalar defaults (string, integer, number, boolean), string/number enum carriers, depth-1 arrays of primitives; documents with the property absent, null, and present with another valid value; the decoded field (read from json.Marshal of the decoded value) must equal the default resp. the document value. Plus random schemas with defaults for the model tie. Distinct = distinct (default kind, document kind, outcome)."
+		c.Rule = "one optional property with a default per program: scalar defaults (string, integer, number, boolean), string/number enum carriers, depth-1 arrays of primitives; documents with the property absent, null, and present with another valid value; the decoded field (read from json.Marshal of the decoded value) must equal the default resp. the document value; two schema nodes that ask for the same Go type name (sibling properties, definitions, definition vs property; both orders) and differ only in their defaults must each apply their own. Plus random schemas with defaults for the model tie. Distinct = distinct (default kind, document kind, outcome)."
 		c.Proofs([]string{"GJS.Props.C09"}, []string{
 			"GJS.Props.C09.absent_gets_default", "GJS.Props.C09.null_gets_default", "GJS.Props.C09.present_wins",
 			"GJS.Props.C09.literal_value_typed",
@@ -367,14 +399,87 @@ func init() {
 				pcs = append(pcs, baseCase("c09-defaults", schema, docs, dc.name))
 			}
 		}
+		// two schema nodes that ask for the same Go type name and differ ONLY in their defaults: each position must
+		// get its OWN default (the generator compares the nodes before it reuses a declared type)
+		type twinCase struct {
+			k1, k2 string
+			d1, d2 any
+		}
+		var twinMeta []twinCase
+		var twinCases []*core.PCase
+		for _, dp := range []struct {
+			ty     string
+			d1, d2 any
+		}{{"integer", 1, 2}, {"string", "a", "b"}, {"boolean", true, false}, {"number", 1.5, 2.5}} {
+			for _, swap := range []bool{false, true} {
+				d1, d2 := dp.d1, dp.d2
+				if swap {
+					d1, d2 = d2, d1
+				}
+				node := func(d any) M {
+					return M{"type": "object", "properties": M{"t": M{"type": dp.ty, "default": d}, "u": M{"type": "string"}}}
+				}
+				for _, way := range []string{"sibling-properties", "definitions", "definition-and-property"} {
+					var schema M
+					var tc twinCase
+					switch way {
+					case "sibling-properties":
+						schema = M{"type": "object", "properties": M{"a-b": node(d1), "a_b": node(d2)}}
+						tc = twinCase{"a-b", "a_b", d1, d2}
+					case "definitions":
+						schema = M{"type": "object", "properties": M{"p": M{"$ref": "#/$defs/a-b"}, "q": M{"$ref": "#/$defs/a_b"}}, "$defs": M{"a-b": node(d1), "a_b": node(d2)}}
+						tc = twinCase{"p", "q", d1, d2}
+					case "definition-and-property":
+						schema = M{"type": "object", "properties": M{"p": node(d2), "q": M{"$ref": "#/$defs/RootP"}}, "$defs": M{"RootP": node(d1)}}
+						tc = twinCase{"q", "p", d1, d2}
+					}
+					docs := []any{M{tc.k1: M{"u": "x"}, tc.k2: M{"u": "y"}}}
+					twinCases = append(twinCases, baseCase("c09-same-name-different-default", schema, docs, dp.ty, way, fmt.Sprint(swap)))
+					twinMeta = append(twinMeta, tc)
+				}
+			}
+		}
 		do := sgen.Opts{Defaults: true, Nullable: false, Enums: true, MaxDepth: 2}
 		for i := 0; i < c.N(150, 2500); i++ {
 			g := sgen.New(c.R, do)
 			root := g.Root("")
 			pcs = append(pcs, baseCase("c09-random", root, g.Docs(root, 10)))
 		}
-		res := runCases(c, pcs)
 		fails := 0
+		tres := runCases(c, twinCases)
+		for i, r := range tres {
+			if r.RunsJ == nil {
+				fails++
+				c.Fail("oracle", "same-named nodes with different defaults: the program does not generate/compile: "+r.Real.ErrMsg+r.CompileErr, replayOf(r, -1, nil), false)
+				continue
+			}
+			tc := twinMeta[i]
+			rr := r.RunsJ[0]
+			c.Eval("twin-default|" + strings.Join(r.Case.Labels, ",") + "|" + rr.Kind)
+			ok := rr.Kind == "ok"
+			if ok {
+				out, err := core.ParseCanon(rr.Canon)
+				m, _ := out.(map[string]any)
+				g1, _ := m[tc.k1].(map[string]any)
+				g2, _ := m[tc.k2].(map[string]any)
+				ok = err == nil && g1 != nil && g2 != nil && core.Canon(g1["t"]) == core.Canon(core.CanonValue(tc.d1)) && core.Canon(g2["t"]) == core.Canon(core.CanonValue(tc.d2))
+				// a false / zero default is dropped again by omitempty: accept its absence
+				if !ok && err == nil && g1 != nil && g2 != nil {
+					a1, p1 := g1["t"]
+					a2, p2 := g2["t"]
+					e1, e2 := core.CanonValue(tc.d1), core.CanonValue(tc.d2)
+					ok = ((!p1 && core.IsEmptyJSON(e1)) || (p1 && core.Canon(a1) == core.Canon(e1))) && ((!p2 && core.IsEmptyJSON(e2)) || (p2 && core.Canon(a2) == core.Canon(e2)))
+				}
+			}
+			if !ok {
+				fails++
+				if fails <= 3 {
+					c.Fail("oracle", fmt.Sprintf("two same-named nodes with defaults %v and %v: decoding a document that omits both gives %s %s", tc.d1, tc.d2, rr.Kind, clip(rr.Canon+rr.Msg, 200)), replayOf(r, 0, nil), false)
+				}
+			}
+		}
+		res := runCases(c, pcs)
+		res = append(res, tres...)
 		for _, r := range res {
 			if r.Case.Stream != "c09-defaults" {
 				continue
